@@ -214,18 +214,33 @@ def _finite_between(name, lo, hi):
     return f'(assert (and (not (fp.isNaN {name})) (fp.leq {f64(lo)} {name}) (fp.leq {name} {f64(hi)})))'
 
 
+UNTRANSLATED = []
+
+
 def fp_queries():
-    """[(name, description, smt text, variable names, replay function)] regenerated from the current source"""
-    import supvisors.statscompiler as SC
-    from fp.translate import cpu_expression, io_expression, proc_expression, f64
+    """[(name, description, smt text, variable names, replay function)] regenerated from the current source; a kernel
+    whose current form the translator does not cover is listed in UNTRANSLATED (reported as inconclusive, never as
+    success and never as a violation)"""
     out = []
+    del UNTRANSLATED[:]
+    for builder in (_cpu_query, _io_queries, _proc_query):
+        try:
+            builder(out)
+        except (NotImplementedError, KeyError, StopIteration, AttributeError, ValueError, IndexError, TypeError) as exc:
+            UNTRANSLATED.append(f'{builder.__name__}: {type(exc).__name__}: {exc}')
+    return out
+
+
+def _cpu_query(out):
+    import supvisors.statscompiler as SC
+    from fp.translate import cpu_expression, f64
     # --- CPU percentage of one core from non-decreasing counters
-    term, guard, free, text = cpu_expression(SC.cpu_statistics)
-    names = ['latest_work', 'latest_idle', 'ref_work', 'ref_idle']
+    term, guard, names, text = cpu_expression(SC.cpu_statistics)
+    lw, li, rw, ri = names
     smt = ['(set-logic QF_FP)', _decl(names)]
     for n in names:
         smt.append(_finite_between(n, 0.0, BOUND))
-    smt += ['(assert (fp.leq ref_work latest_work))', '(assert (fp.leq ref_idle latest_idle))']
+    smt += [f'(assert (fp.leq {rw} {lw}))', f'(assert (fp.leq {ri} {li}))']
     if guard:
         smt.append(f'(assert (not (fp.isZero {guard})))')
     smt.append(f'(define-fun result () (_ FloatingPoint 11 53) {term})')
@@ -233,9 +248,14 @@ def fp_queries():
     smt += ['(check-sat)', f'(get-value ({" ".join(names)}))']
 
     def replay_cpu(m):
-        r = SC.cpu_statistics([(m['latest_work'], m['latest_idle'])], [(m['ref_work'], m['ref_idle'])])[0]
+        r = SC.cpu_statistics([(m[lw], m[li])], [(m[rw], m[ri])])[0]
         return not (0 <= r <= 100), r
     out.append(('cpu-percentage-in-0-100', f'cpu_statistics: {text}', '\n'.join(smt), names, replay_cpu))
+
+
+def _io_queries(out):
+    import supvisors.statscompiler as SC
+    from fp.translate import io_expression, f64
     # --- I/O rates (both directions) from non-decreasing counters over a duration of at least one period (>= 1 s)
     for d, (term, free, text) in enumerate(io_expression(SC.io_statistics)):
         names = list(free)
@@ -258,6 +278,11 @@ def fp_queries():
             return not (math.isfinite(r) and r >= 0), r
         out.append((f'io-rate-{("in", "out")[d] if d < 2 else d}-finite-non-negative', f'io_statistics: {text}',
                     '\n'.join(smt), names, replay_io))
+
+
+def _proc_query(out):
+    import supvisors.statscompiler as SC
+    from fp.translate import proc_expression, f64
     # --- process CPU from a non-decreasing work counter over at least one period
     term, free, text = proc_expression(SC.ProcStatisticsInstance.integrate)
     names = sorted(free)
@@ -282,7 +307,6 @@ def fp_queries():
         return not (math.isfinite(r) and r >= 0), r
     out.append(('process-cpu-finite-non-negative', f'ProcStatisticsInstance.integrate: {text}', '\n'.join(smt),
                 names, replay_proc))
-    return out
 
 
 def validate_translation():
@@ -291,17 +315,19 @@ def validate_translation():
     import z3
     import supvisors.statscompiler as SC
     from fp.translate import cpu_expression
-    term, guard, free, text = cpu_expression(SC.cpu_statistics)
+    try:
+        term, guard, names, text = cpu_expression(SC.cpu_statistics)
+    except NotImplementedError:
+        return 0, None          # reported through UNTRANSLATED by fp_queries
     vectors = [((25.0, 10.0), (15.0, 5.0)), ((35.0, 20.0), (15.0, 5.0)), ((1.0, 3.0), (0.5, 2.0)),
                ((0.69, 0.0), (0.0, 0.0)), ((1e9 + 0.1, 7.5), (1e9, 2.5)), ((3.3, 9.9), (1.1, 2.2))]
     checked = 0
     for (lw, li), (rw, ri) in vectors:
-        smt = f'''(declare-const latest_work (_ FloatingPoint 11 53))(declare-const latest_idle (_ FloatingPoint 11 53))
-(declare-const ref_work (_ FloatingPoint 11 53))(declare-const ref_idle (_ FloatingPoint 11 53))
-(declare-const r (_ FloatingPoint 11 53))(assert (= r {term}))'''
+        smt = ''.join(f'(declare-const {n} (_ FloatingPoint 11 53))' for n in names) + \
+            f'(declare-const r (_ FloatingPoint 11 53))(assert (= r {term}))'
         s = z3.Solver()
         s.from_string(smt)
-        for n, v in (('latest_work', lw), ('latest_idle', li), ('ref_work', rw), ('ref_idle', ri)):
+        for n, v in zip(names, (lw, li, rw, ri)):
             s.add(z3.FP(n, z3.Float64()) == z3.FPVal(v, z3.Float64()))
         assert s.check() == z3.sat
         got = _fpval(s.model().eval(z3.FP('r', z3.Float64())))
@@ -331,6 +357,9 @@ def extra_checks(tier, seed):
         errors.append(err)
     import concurrent.futures
     queries = fp_queries()
+    ev['fp_untranslated'] = list(UNTRANSLATED)
+    if not queries:
+        return violations, ev, errors
     with concurrent.futures.ThreadPoolExecutor(len(queries)) as ex:
         answers = list(ex.map(lambda q: solve(q[2], q[3], cap=cap), queries))
     for (name, desc, smt, names, replay), res in zip(queries, answers):
